@@ -404,7 +404,7 @@ pub fn run(tier: &str) -> i32 {
             }
         }
     }
-    let cfgs = [Config { encase: true, ..Config::default() }, Config { bytemuck_vertex: true, bytemuck_host: true, encase: true, serde: true, repr: Repr::Glam, ..Config::default() }];
+    let cfgs = [Config::default(), Config { encase: true, ..Config::default() }, Config { bytemuck_vertex: true, bytemuck_host: true, encase: true, serde: true, repr: Repr::Glam, ..Config::default() }];
     let items: Vec<(usize, usize)> = (0..corpus.len()).flat_map(|i| (0..cfgs.len()).map(move |c| (i, c))).collect();
     let pairs = par_map(&items, |(i, c)| (generate(&corpus[*i].1, &cfgs[*c]), generate(&corpus[*i].1, &Config { rustfmt: true, ..cfgs[*c] })));
     for ((i, c), (off, on)) in items.iter().zip(pairs.iter()) {
